@@ -87,14 +87,12 @@ pub struct ImportFaults {
 pub struct ServerStats {
     pub rollbacks_delivered: u64,
     pub rollback_below_first_stored: u64,
-    pub rollback_below_first_neutralised: u64,
     pub intersect_not_found: u64,
     pub intersect_skipped_no_agency: u64,
     pub reader_errors_fired: u64,
     pub reader_timeouts: u64,
     pub mid_forks_fired: u64,
     pub mid_forks_back_to_scan_start: u64,
-    pub mid_forks_neutralised: u64,
     pub forwards: u64,
     pub awaits: u64,
 }
@@ -118,14 +116,8 @@ pub struct ServerState {
     /// envelope of runs with pruning nodes: forks are at most this deep
     pub max_fork_depth: Option<u64>,
     pub max_blocks: u64,
-    /// known finding C13-rollback-to-scan-start-ignored neutralised: a fork during an import whose
-    /// common ancestor has the slot of the scan's start point is not applied
-    pub neutralise_back_to_scan_start: bool,
     /// start point of the current / last scan of each connection
     pub scan_from: Vec<Point>,
-    /// known finding C13-rollback-below-first-block neutralised: the harness removes what the
-    /// store should have removed
-    pub neutralise_below_first: bool,
     // per-import state
     pub active_node: Option<usize>,
     pub calls: u64,
@@ -155,9 +147,7 @@ impl ServerState {
             protect_first: first_slot == 0,
             max_fork_depth: None,
             max_blocks: 420,
-            neutralise_back_to_scan_start: false,
             scan_from: vec![None; nodes],
-            neutralise_below_first: false,
             active_node: None,
             calls: 0,
             faults: ImportFaults::default(),
@@ -317,9 +307,7 @@ impl ServerState {
                 if swallowed {
                     self.stats.mid_forks_back_to_scan_start += 1;
                 }
-                if swallowed && self.neutralise_back_to_scan_start {
-                    self.stats.mid_forks_neutralised += 1;
-                } else if d > 0 {
+                if d > 0 {
                     self.fork(depth, new_len, seed);
                     self.stats.mid_forks_fired += 1;
                 }
@@ -372,8 +360,8 @@ impl ServerState {
         }
     }
 
-    /// Probe (and, when enabled, neutralisation) of the known finding: a roll-back to a point
-    /// below every block stored by the node.
+    /// Probes: a roll-back delivered to a node with a non-empty store; a roll-back to a point below
+    /// every block stored by the node (everything it stores must go).
     fn on_rollback_emitted(&mut self, node: usize, p: &Point, ack: bool) {
         let slot = p.as_ref().map(|(s, _)| *s).unwrap_or(0);
         let path = self.db_paths[node].clone();
@@ -395,27 +383,6 @@ impl ServerState {
         let at_or_below = count(&format!("select count(*) from cardano_block where slot_number <= {slot}"));
         if total > 0 && at_or_below == 0 {
             self.stats.rollback_below_first_stored += 1;
-            if self.neutralise_below_first {
-                // what the statement requires of the store: everything above the point goes away
-                let number = match p {
-                    None => 0,
-                    Some((s, h)) => self
-                        .chain
-                        .iter()
-                        .find(|b| b.slot == *s && &b.hash == h)
-                        .map(|b| b.number)
-                        .unwrap_or(0),
-                };
-                let start = range_start(number);
-                conn.execute("pragma foreign_keys=true").expect("fk");
-                conn.execute(format!(
-                    "delete from cardano_block where slot_number > {slot}; \
-                     delete from block_range_root where start >= {start}; \
-                     delete from block_range_root_legacy where start >= {start};"
-                ))
-                .expect("neutralisation delete");
-                self.stats.rollback_below_first_neutralised += 1;
-            }
         }
     }
 }
